@@ -79,9 +79,15 @@ def gen_streams(c, valid_only):
     return c.generate("MC_GenAcc", "MC_GenAcc_simvalid.cfg" if valid_only else "MC_GenAcc_sim.cfg", n, 400)
 
 
+def gen_valid_small(c):
+    """a modest set of grammar-generated valid streams for the schedule-driven decoder scenarios"""
+    return c.generate("MC_GenAcc", "MC_GenAcc_simvalid.cfg", 400 if thorough(c) else 90, 300)
+
+
 def mc_inflate_core(c):
     for l in ("LZlib", "LStored", "LLong"):
         c.model_check("MC_InflateCore", "MC_InflateCore_%s.cfg" % l, workers=4)
+    c.decoder_state_model()
 
 
 def check_C03(c):
@@ -111,21 +117,21 @@ def check_C05(c):
 
 def check_C06(c):
     mc_inflate_core(c)
-    c.scenario("trailing")
+    c.scenario("trailing", extra=["--in", gen_valid_small(c)])
     c.scenario("capi_c06")
     return c.finish("model_checking", RULE_DEC, TRUST)
 
 
 def check_C07(c):
     mc_inflate_core(c)
-    c.scenario("schedules")
+    c.scenario("schedules", extra=["--in", gen_valid_small(c)])
     return c.finish("model_checking", RULE_DEC, TRUST)
 
 
 def check_C08(c):
     mc_inflate_core(c)
     c.model_check("MC_InflateHelpers", "MC_InflateHelpers.cfg", workers=2)
-    c.scenario("window")
+    c.scenario("window", extra=["--in", gen_valid_small(c)])
     return c.finish("model_checking", RULE_DEC, TRUST)
 
 
@@ -133,7 +139,7 @@ def check_C13(c):
     for k in ("valid", "trailing", "truncated", "corrupt"):
         c.model_check("MC_InflateStream", "MC_InflateStream_%s.cfg" % k, workers=4)
     c.model_check("MC_InflateStream", "MC_InflateStream_live.cfg", workers=4)
-    c.scenario("inflate_protocol")
+    c.scenario("inflate_protocol", extra=["--in", gen_valid_small(c)])
     return c.finish("model_checking", RULE_DEC, TRUST)
 
 
